@@ -56,26 +56,36 @@ def stoppedOnSend (out : List (Nat × Event)) (k : Nat) : Bool :=
   | none => true
   | some (kl, _) => decide (kl < k)
 
-def pump (isStream : Bool) (x : List Byte) (r : R Val) : Run :=
-  let len := x.length
-  let (out, pos, res) : (List (Nat × Event) × Nat × Except Err Val) := match r with
-    | .ok (v, s) => (s.out, s.pos, .ok v)
-    | .error (e, s) => (s.out, s.pos, .error e)
-  let (evs, cc, stopped) := pumpEvents isStream len out [] none
-  if stopped then ⟨evs, .silent, cc⟩ else
-  match res with
+def stOf {α : Type} : R α → St
+  | .ok (_, s) => s
+  | .error (_, s) => s
+
+def resOf : R Val → Except Err Val
+  | .ok (v, _) => .ok v
+  | .error (e, _) => .error e
+
+/-- how the pump ends, given the walker's trace `out`, final byte count `pos` and result -/
+def pumpOutcome (x : List Byte) (out : List (Nat × Event)) (pos : Nat) : Except Err Val → Outcome
   | .ok v =>
-    if stoppedOnSend out pos then ⟨evs, .crash "RuntimeError" "processor finished on a byte send (PEP 479)", cc⟩
-    else if pos < len then ⟨evs, .superfluous (x.drop pos) v, cc⟩
-    else ⟨evs, .done v, cc⟩
-  | .error .depleted => ⟨evs, .depleted, cc⟩
-  | .error (.crash cls site) => ⟨evs, .crash cls site, cc⟩
+    if stoppedOnSend out pos then .crash "RuntimeError" "processor finished on a byte send (PEP 479)"
+    else if pos < x.length then .superfluous (x.drop pos) v
+    else .done v
+  | .error .depleted => .depleted
+  | .error (.crash cls site) => .crash cls site
   | .error e =>
     -- raised on a byte send: the iterator holds the rest; raised on an event pull: the look-ahead byte
     -- (if there is one) has not been consumed and is put back in front of the rest
-    ⟨evs, .raised e (x.drop pos), cc⟩
+    .raised e (x.drop pos)
+
+def pump (isStream : Bool) (x : List Byte) (r : R Val) : Run :=
+  let pe := pumpEvents isStream x.length (stOf r).out [] none
+  ⟨pe.1, if pe.2.2 then .silent else pumpOutcome x (stOf r).out (stOf r).pos (resOf r), pe.2.1⟩
 
 /-- `Binary.marshal(tpm_type=…, buffer=x, command_code=…, parameter_encryption=…, abort_on_error=…)`
 run to completion -/
+def Top.isStream : Top → Bool
+  | .stream => true
+  | _ => false
+
 def marshalRun (abort : Bool) (tb : MsgTables) (top : Top) (x : List Byte) : Run :=
-  pump (match top with | .stream => true | _ => false) x (runWalker abort tb top x)
+  pump top.isStream x (runWalker abort tb top x)
